@@ -44,6 +44,7 @@ type VerifC11Case struct {
 	JobType   string `json:"jobType"`   // incremental | fullsync
 	Handlers  string `json:"handlers"`  // none | log | rerun | logrerun | bad | Log
 	Kill      bool   `json:"kill"`
+	Delete    bool   `json:"delete"` // the job definition is deleted (DeleteJob does not interrupt a run) before the kill
 	// raffle
 	CapF    int           `json:"capF"`
 	CapI    int           `json:"capI"`
@@ -246,8 +247,8 @@ func VerifC11RunCfg(c VerifC11Case, dir string) (obs VerifC11Obs) {
 	handlers := map[string]string{
 		"none":     ``,
 		"log":      `,"onError":[{"errorHandler":"log"}]`,
-		"rerun":    `,"onError":[{"errorHandler":"rerun","maxRetries":1,"retryDelay":20}]`,
-		"logrerun": `,"onError":[{"errorHandler":"log"},{"errorHandler":"rerun","maxRetries":1,"retryDelay":20}]`,
+		"rerun":    `,"onError":[{"errorHandler":"rerun","maxRetries":1,"retryDelay":1}]`,
+		"logrerun": `,"onError":[{"errorHandler":"log"},{"errorHandler":"rerun","maxRetries":1,"retryDelay":1}]`,
 		"bad":      `,"onError":[{"errorHandler":"nosuchhandler"}]`,
 		"Log":      `,"onError":[{"errorHandler":"Log"}]`,
 	}[c.Handlers]
@@ -307,6 +308,9 @@ func VerifC11RunCfg(c VerifC11Case, dir string) (obs VerifC11Obs) {
 			time.Sleep(20 * time.Millisecond)
 			waitFor = 8 * time.Second
 		}
+		if c.Delete && remote == nil {
+			_ = sched.DeleteJob(id)
+		}
 		sched.KillJob(id)
 	}
 	// wait for the run to end: result stored and slot released; or nothing running and no result for a while
@@ -338,6 +342,11 @@ func VerifC11RunCfg(c VerifC11Case, dir string) (obs VerifC11Obs) {
 		settle = 500 * time.Millisecond
 	}
 	time.Sleep(settle)
+	if c.Kill && remote == nil && (c.Handlers == "rerun" || c.Handlers == "logrerun") {
+		// a killed run must not be started again by the reRun handler: wait longer than the retry delay (1 s) plus a run
+		// of the slow source (0.9 s); a re-run would overwrite the recorded kill
+		time.Sleep(3 * time.Second)
+	}
 	obs.Result = verifC11Result(store, id)
 	obs.Stored = obs.Result
 	runner.raffle.runningMu.Lock()
